@@ -214,7 +214,7 @@ fn emit_mut<T: Doc>(out: &mut Out, doc: &J, labels: &[&str]) {
     out.cases.push(g);
     out.side.push(json!({
         "kind": format!("mut_{}", T::KIND), "tag": "mutation", "text": text, "labels": labels,
-        "serde_ok": r.is_ok(), "serde_err": r.as_ref().err().map(|e| e.to_string()),
+        "serde_ok": r.is_ok(), "serde_err": r.as_ref().err().map(|e| e.to_string()), "has_dup": jj.has_dup(),
     }));
 }
 
